@@ -156,6 +156,34 @@ func Routing(w *world.World, raws []json.RawMessage) ([]interface{}, error) {
 			time.Sleep(130 * time.Millisecond)
 			close(stop)
 			wg.Wait()
+			// reloads that change the table: another table (nothing of the case matches in it) is installed, then the case's
+			// table again while the first lookups of every server's location list are under way; when everything is
+			// quiet every answer is one the case's table allows
+			var other []location.Location
+			for _, l := range locs {
+				l.Hosts = []string{"no-such-host.test"}
+				other = append(other, l)
+			}
+			for round := 0; round < 25; round++ {
+				ls.Set(append([]location.Location{}, other...))
+				var rg sync.WaitGroup
+				for g := 0; g < 4; g++ {
+					rg.Add(1)
+					go func(g int) {
+						defer rg.Done()
+						for i := g; i < len(c.Queries); i += 4 {
+							q := &c.Queries[i]
+							_ = ls.Get(q.Host, q.URI, q.Names...)
+						}
+					}(g)
+				}
+				ls.Set(append([]location.Location{}, locs...))
+				rg.Wait()
+				for i := range c.Queries {
+					q := &c.Queries[i]
+					sets[i][idxOf(ls.Get(q.Host, q.URI, q.Names...))] = true
+				}
+			}
 			for i := range sets {
 				for a := range sets[i] {
 					answers[i] = append(answers[i], a)
